@@ -165,12 +165,12 @@ Definition mem (s : string) (l : list string) : bool := existsb (String.eqb s) l
 
 (* compute_dowhile_state: always int(...); instances of the condition's producer, selected by blueprint name and
    stage (document['condition'] is stored with its stage relative to the document, a missing stage is 0;
-   before d93f459 the name alone was compared: finding F5b) *)
+   before 5c6cbf4 the name alone was compared: finding F5b) *)
 Definition cond_id (d : dowhile) : N * string :=
   (opt_stage (l_stage (d_cond d)) 0 + d_stage d, l_prod (d_cond d)).
 Definition cond_insts (d : dowhile) (l : list inst) : list inst :=
   filter (fun x => id_eqb (i_stage x, bp_name (i_name x)) (cond_id d)) l.
-(* the same selection by name only, as the code did before d93f459 (used by Refuted.v) *)
+(* the same selection by name only, as the code did before 5c6cbf4 (used by Refuted.v) *)
 Definition cond_insts_by_name (d : dowhile) (l : list inst) : list inst :=
   filter (fun x => String.eqb (bp_name (i_name x)) (l_prod (d_cond d))) l.
 Definition cur_cond_inst (w : wfst) : option inst := argmax KeyInt (cond_insts (w_doc w) (w_loop w)).
@@ -187,7 +187,7 @@ Definition represents (l : list inst) (p : N * string) : list inst :=
 Definition is_placeholder (w : wfst) (p : N * string) : bool := in_loop_ids (w_doc w) p.
 Definition latest (kk : keykind) (w : wfst) (p : N * string) : option inst := argmax kk (represents (w_loop w) p).
 
-(* map_placeholder_id_to_iteration: stage and blueprint name (name only before d93f459) *)
+(* map_placeholder_id_to_iteration: stage and blueprint name (name only before 5c6cbf4) *)
 Definition map_latest (kk : keykind) (w : wfst) (p : N * string) : option string :=
   option_map inst_node (argmax kk (filter (fun x => id_eqb (i_stage x, bp_name (i_name x)) p) (w_loop w))).
 
